@@ -306,6 +306,57 @@ def S_function_schema(Q, n):
     return Q.from_(t).select(r["Function"]("F", t.a, schema=r["Schema"](n)))
 
 
+def S_tables_factory(Q, n):
+    t = _r()["make_tables"](n)[0]
+    return Q.from_(t).select(t.a)
+
+
+def S_tables_factory_many(Q, n):
+    t, u = Q.Tables(n, "u")
+    return Q.from_(t).select(t.a).join(u).on(t.id == u.id)
+
+
+def S_tables_factory_alias_pair(Q, n):
+    t = Q.Tables(("t", n))[0]
+    return Q.from_(t).select(t.a)
+
+
+def S_tables_factory_name_pair(Q, n):
+    t = Q.Tables((n, "al"))[0]
+    return Q.from_(t).select(t.a)
+
+
+def S_query_table(Q, n):
+    t = Q.Table(n)
+    return Q.from_(t).select(t.a)
+
+
+def S_database_chain(Q, n):
+    t = getattr(getattr(_r()["Database"](n), "s"), "tbl")
+    return Q.from_(t).select(t.a)
+
+
+def S_schema_attr_table(Q, n):
+    t = getattr(_r()["Schema"]("s"), n)
+    return Q.from_(t).select(t.a)
+
+
+def S_table_attr_column(Q, n):
+    t = _r()["Table"]("t")
+    return Q.from_(t).select(t[n], t.field(n))  # (attribute access is not used: names of methods are methods)
+
+
+def S_index_object(Q, n):
+    r = _r()
+    t = r["Table"]("t")
+    return Q.from_(t).select(t.a).force_index(r["Index"](n))
+
+
+def S_column_object(Q, n):
+    r = _r()
+    return Q.create_table("t").columns(r["Column"](n, "INT", nullable=False, default=1))
+
+
 SITES = {k[2:].replace("_", "-"): v for k, v in list(globals().items()) if k.startswith("S_")}
 ONLY = {"returning": {"PostgreSQLQuery"}, "distinct-on": {"PostgreSQLQuery"}, "mysql-upsert-alias": {"MySQLQuery"},
         "load": {"MySQLQuery"}}
@@ -345,10 +396,12 @@ def cases(tier, seed, shard, nshards):
         yield {"site": site, "d": d, "label": "random", "n": random_name(rnd)}
 
 
-def render(site, d, n):
+def render(site, d, n, default_root=False):
     reg = registry()
     try:
         o = SITES[site](reg[d], n)
+        if default_root:
+            return str(o), None  # the way users render: no context given
         return o.get_sql(contexts()[d]), None
     except Exception as e:
         return None, e
@@ -411,6 +464,13 @@ def run_case(case, mon):
                       {"sql": sql_n, "marker_sql": sql_m})
         return
     mon.count("names_emitted_ok")
+    # the same statement rendered without a context (str()): identical text, so every name keeps the dialect's quoting
+    sql_s, es = render(site, d, n, default_root=True)
+    mon.count("default_root_renders")
+    if sql_s != sql_n:
+        mon.violation("default-root-differs:%s:%s" % (site, fam), "str() of the statement differs from its rendering through %s.SQL_CONTEXT: %r vs %r" % (
+            d, (sql_s or repr(es))[:240], sql_n[:240]))
+        return
     if not (n.isalnum() and n.islower()):
         mon.nontrivial([site, d, n])
     # 3. engine
